@@ -70,6 +70,18 @@ type FuncCtx struct {
 	rpo    []*ssa.BasicBlock
 	loops  map[*ssa.BasicBlock]map[*ssa.BasicBlock]bool // header -> blocks of natural loop
 	cycHit map[ssa.Value]bool
+	parent *FuncCtx        // for contexts of callees analysed as part of a caller
+	site   ssa.Instruction // the call site in parent
+}
+
+// AbsCond: the condition of block b expressed from the entry of the top-level function: the block's own
+// condition conjoined with the conditions of the call sites it was reached through.
+func (fc *FuncCtx) AbsCond(b *ssa.BasicBlock) *bddNode {
+	c := fc.Cond(b)
+	if fc.parent != nil && fc.site != nil {
+		c = fc.A.B.And(c, fc.parent.AbsCond(fc.site.Block()))
+	}
+	return c
 }
 
 // Ctx returns the top-level context for fn (parameters named by their own roots).
@@ -702,7 +714,12 @@ func (fc *FuncCtx) inlineCtx(sc *ssa.Function, args []ssa.Value, site ssa.Instru
 		pfx = fc.A.P.FnName(fc.Fn) + "/"
 	}
 	prefix := fmt.Sprintf("%s%s@%s/", pfx, sc.Name(), site.(ssa.Value).Name())
-	return fc.A.ctxWith(sc, env, prefix, fc.depth+1)
+	sub := fc.A.ctxWith(sc, env, prefix, fc.depth+1)
+	if sub.parent == nil {
+		sub.parent = fc
+		sub.site = site
+	}
+	return sub
 }
 
 // inlineResult: formula "result idx of the call is non-nil" through the callee's body, when the
